@@ -34,7 +34,8 @@ def run(ctx, report, clause_eq="1", clause_immut="2"):
 
     def size(spec):
         return None if spec is None else ev(f"Size(v, UnitEnum.{spec[1]})", v=spec[0])
-    sizes = [(10, "PERCENT"), (20, "PERCENT"), (10, "PIXEL"), (10.0, "PERCENT")]
+    # (the last two differ beyond the print precision only: still different values)
+    sizes = [(10, "PERCENT"), (20, "PERCENT"), (10, "PIXEL"), (10.0, "PERCENT"), (10.001, "PERCENT"), (10.004, "PERCENT")]
     points = [(a, b) for a in sizes[:3] for b in sizes[:2]]
     pads = [None, ((1, "PERCENT"),) * 4, ((1, "PERCENT"), (2, "PERCENT"), (1, "PERCENT"), (1, "PERCENT")), ((1, "PIXEL"),) * 4]
     aligns = [None, ("LEFT", "TOP"), ("LEFT", "BOTTOM"), ("CENTER", "TOP")]
